@@ -4,9 +4,9 @@ import vlib
 
 TARGETS = ["Base/Corr.vo", "Base/Fl.vo", "C01/Model.vo", "C02/Model.vo", "C11/Model.vo", "C03/Model.vo", "C03/ModelM.vo",
            "C10/Gen.vo", "C09/ModelS.vo", "C09/ModelB.vo", "C09/ModelV.vo", "C09/ModelM.vo", "C09/ModelMD.vo", "C09/ModelVR.vo", "C09/Spec.vo", "C09/Corr.vo",
-           "C09/CorrB.vo", "C09/CorrM.vo", "C09/ModelI.vo", "C09/CorrI.vo", "C09/SpecTest.vo",
+           "C09/CorrB.vo", "C09/CorrM.vo", "C09/ModelI.vo", "C09/CorrI.vo", "C09/ModelVA.vo", "C09/CorrA.vo", "C09/ModelMA.vo", "C09/CorrMA.vo", "C09/SpecTest.vo",
            "C09/ProofsS.vo", "C09/ProofsB.vo", "C09/ProofsJ.vo", "C09/ProofsV.vo", "C09/ProofsM.vo", "C09/ProofsMD.vo", "C09/ProofsRefuted.vo",
-           "C09/ProofsRefutedB.vo", "C09/ProofsVR.vo", "C09/ProofsI.vo", "C09/Props.vo"]
+           "C09/ProofsRefutedB.vo", "C09/ProofsVR.vo", "C09/ProofsI.vo", "C09/ProofsVA.vo", "C09/ProofsMA.vo", "C09/Props.vo"]
 PROPS = ["C09/Props.v"]
 PARTIAL = (
     "Proved in Coq (coq/C09/Props.v), for ALL register files / worlds, all zero patterns, all alias patterns, about "
@@ -21,16 +21,18 @@ PARTIAL = (
     "distinct from the operands) on carriers with idempotent float32 rounding; (3) sparse "
     "vectors (shared heap/AVL-key-set model coq/C11/Model.v, generic operations of coq/C03/Model.v, typed joint iterators "
     "JOINT_ITERATOR_/JOINT3_ITERATOR_ and the case-splitting loop bodies in coq/C09/ModelV.v): VADDV VSUBV VMULV VMULS SET "
-    "and VDIVS with a non-zero divisor leave exactly the world of the generic method (every value, the private map, the "
-    "index keys, skip() side effects on operands, panics); VADDS VSUBS VDIVV call the generic method; EQUALS = true "
-    "implies Equals = true with the same world, the converse and VDIVS with divisor 0 are refuted with witnesses; "
+    "leave exactly the world of the generic method (every value, the private map, the "
+    "index keys, skip() side effects on operands, panics); VADDS VSUBS VDIVV and (since 5abb77d) VDIVS call the generic method "
+    "(every divisor, 0 included; F-C09-VDIVS-ZERO retired, its witness proved to agree); EQUALS = true "
+    "implies Equals = true with the same world, the converse is refuted with a witness; "
     "(4) dense vectors: all ten pairs; (3')/(4') Real64/Real32 ELEMENTS (coq/C09/ModelVR.v: a dense Real vector is a list "
     "of cells of C01's register file, shared ids = aliasing / overlap): VADDV VSUBV VMULV VDIVV VADDS VSUBS VMULS VDIVS "
     "SET EQUALS of dense Real vectors run the concrete scalar twins element by element and leave exactly the register file "
     "(values, Order, N, gradient, Hessian of every cell, element and dimension panics) of the generic members, for every "
     "carrier — scalar_pairs_interchangeable composed along the loop (vector_pairs_interchangeable_real); sparse Real "
     "vectors on visit schedules (the typed joint iterators deliver the schedule of the generic ones — proved over Z): visits "
-    "whose operand entries are present give the same register file, visits with an ABSENT operand entry differ in Order/N "
+    "whose operand entries are present give the same register file (VDIVS: every visit, it calls VdivS), visits of VADDV VSUBV "
+    "VMULV VMULS SET with an ABSENT operand entry differ in Order/N "
     "of the receiver cell (F-C09-ABSENT-META, refuted with a witness; values and derivative values are compared on the "
     "implementation every run); (5) dense matrices (coq/C09/ModelM.v: nested i/j loops over AT = "
     "&values[index(i,j)] with the index kernel coq/C10/Gen.v regenerates from the Go source, on the shared matrix world "
@@ -52,12 +54,30 @@ PARTIAL = (
     "(skip() side effects), same panic on EVERY world (the generic members are wrappers of the concrete ones: the theorem is "
     "by unfolding and exists so that a diverging edit breaks it; the wrapper shape of every generic accessor / iterator body "
     "x receiver type is re-read from the source by go/ast each run and compared with the shape table the model assumes; both "
-    "models are replayed against both Go members, visit sequences and the world afterwards). Element carrier of (3)-(6) is Z "
+    "models are replayed against both Go members, visit sequences and the world afterwards); "
+    "(7) the SCALAR operand of the vector-scalar and matrix-scalar pairs passed BY REFERENCE (coq/C09/ModelVA.v, ModelMA.v: a bare "
+    "scalar is a struct around a pointer, r.VMULS(a, r.AT(k)) / v.VDIVS(v, v.AT(0)) / r.MADDS(a, r.AT(i, j)) hand the member a cell "
+    "of the receiver that the loop overwrites; both members written out again with the scalar read in the CURRENT world on every "
+    "iteration; references: a scalar of its own, x.At(i) of the receiver, of the other operand, of a third vector / matrix, of a "
+    "dense vector; absent sparse entries created by At): dense vectors VADDS VSUBS VMULS VDIVS and sparse vectors VADDS VSUBS VMULS VDIVS "
+    "leave exactly the generic world for every world and every reference (sparse VDIVS: full since 5abb77d made it call VdivS; the "
+    "round-6 finding F-C09-VDIVS-SELFREF, divisor r[e] overwritten with 0 / b, is retired, its witness proved to agree and kept as "
+    "a regression case); dense matrices MADDS MSUBS MMULS MDIVS (nested loops over "
+    "AT vs the row-major generic loop) on every well-formed world and every reference; a scalar of "
+    "its own gives back the by-value pairs of (3)-(5) (proved), a dense reference outside the receiver is as good as its value "
+    "(frame, proved), and a twin that reads the scalar ONCE before the loop is refuted for dense vectors, sparse vectors and dense "
+    "matrices. Replayed against both Go members every run (families A and MA, all nine element types; 1 case in 4-5 is one where a "
+    "copy of the scalar would change the result); the direct generic-vs-concrete comparison carries element references in its "
+    "random, exhaustive and directed streams (every scalar slot of a container method, dense and sparse, all element types, Real "
+    "elements with derivatives included). Element carrier of (3)-(7) is Z "
     "(exact ring): what only floats can show (sign of zero, 0*Inf, order of accumulation) is outside these theorems and is "
     "decided per run by the direct generic-vs-concrete comparison on the implementation (directed family: products whose sum "
     "depends on the accumulation order, in-place products r = a, r = b, r = a = b, all nine element types). NOT modelled "
     "(compared on the implementation only, every run, all nine element types, bit-exact incl. derivatives): ROW COL DIAG "
-    "SLICE (source shape checked), JOINT_ITERATOR of dense receivers, matrix views; sparse Real absent-entry visits (above). "
+    "SLICE (source shape checked), JOINT_ITERATOR of dense receivers, matrix views; sparse Real absent-entry visits (above); a "
+    "scalar reference into a DENSE vector handed to a SPARSE receiver, and references into Real-element containers other than what "
+    "(4') covers (there the scalar is a register that may be a cell of the receiver: proved on the model, not replayed as a "
+    "vector-level case). "
     "No pair exists for: arithmetic of sparse matrices (MaddM .. Outer have concrete twins on dense matrices only; sparse "
     "matrices pair only At Get Iterator IteratorFrom JointIterator Row Col Diag Slice), Map MapSet Reduce ConstAt "
     "ConstIterator ConstIteratorFrom ConstJointIterator (generic only; listed in the evidence as 'no pair'). The pair table is "
@@ -114,7 +134,7 @@ def corr(ctx, binary, n):
         return None, []
     bad = []
     nc = ns = 0
-    for stem in ("cases", "bcases", "mcases", "icases"):
+    for stem in ("cases", "bcases", "mcases", "icases", "acases", "macases"):
         meta = json.load(open(os.path.join(ctx.dir, stem + ".meta.json")))
         vlib.merge_meta(ctx, meta)
         if meta.get("no_pair"):
